@@ -628,6 +628,13 @@ MapOpts ==
    \* a list conversion on a column that short rows do not reach
    O(<<>>, <<>>, <<>>, <<"k2">>, <<>>), O(<<>>, <<>>, <<>>, <<"k1">>, <<"k2">>)}
 \* all line sequences of length <= n
+\* deterministic stride sample of k elements of S (k = 0: all)
+Sample(S, k, salt) ==
+  IF k = 0 \/ Cardinality(S) <= k THEN S
+  ELSE LET sq == SetToSeq(S)
+           stride == Len(sq) \div k
+           off == salt % stride
+       IN {sq[off + 1 + (j - 1) * stride] : j \in 1..k}
 RECURSIVE LineSeqs(_, _)
 LineSeqs(L, n) == IF n = 0 THEN {<<>>} ELSE LineSeqs(L, n - 1) \cup {Append(s, l) : s \in LineSeqs(L, n - 1), l \in L}
 
@@ -892,7 +899,10 @@ StepsFor(call, h, recv, res, full) ==
            : fmt \in {"json", "hdf5"}}
     [] call = "mapfile" ->
          {St(call, recv, recv, [lines |-> ls, opts |-> o]) :
-            ls \in LineSeqs(MapLines("o1", "o2"), IF full THEN 4 ELSE 3), o \in MapOpts}
+            \* full: files of up to four lines; a deterministic stride sample of the 16 105 line sequences is taken
+            \* BEFORE they are multiplied by the options (building every record first took 25 minutes)
+            ls \in (IF full THEN Sample(LineSeqs(MapLines("o1", "o2"), 4), 4000, 11) ELSE LineSeqs(MapLines("o1", "o2"), 3)),
+            o \in MapOpts}
     [] call = "cli_add_metadata" ->
          UNION {
            LET ids == Ids(t, ax)
@@ -906,10 +916,13 @@ StepsFor(call, h, recv, res, full) ==
                rows == {l \in L : l.kind = "row"}
                files == {<<hd, r1>> : hd \in hdrs, r1 \in rows}
                         \cup {<<hd, r1, r2>> : hd \in hdrs, r1 \in rows, r2 \in rows}
-                        \cup (IF full THEN {<<hd, x, r1, r2, r3>> : hd \in hdrs, x \in L \ rows, r1 \in rows, r2 \in rows, r3 \in rows}
+                        \cup (IF full THEN {<<hd, x, r1, r2, r3>> : hd \in hdrs, x \in L \ rows, r1 \in rows, r2 \in rows,
+                                                                       r3 \in {r \in rows : Len(r.fields) # 3}}
                               ELSE {<<r1, hd, r2>> : hd \in hdrs, r1 \in rows, r2 \in rows})
+               \* the long files are sampled before they are multiplied by the options
+               fs == IF full THEN Sample(files, 240, 5) ELSE files
            IN {St(call, recv, res, [lines |-> ls, opts |-> o, axis |-> ax, other_header |-> oh, json |-> js]) :
-                 ls \in files, o \in opts,
+                 ls \in fs, o \in opts,
                  oh \in (IF full THEN {<<>>, <<"ID", "zz1">>} ELSE {<<"ID", "zz1">>}), js \in BOOLEAN}
            : ax \in Axes}
     [] OTHER -> {}
@@ -920,12 +933,6 @@ NumSum(row) == IF row = <<>> THEN 0 ELSE Abs(Head(row)[1]) + NumSum(Tail(row))
 StateSalt(h) == LET t == h["a"] IN
   Len(t.obs) * 3 + Len(t.samp) * 5 + (IF Len(t.mat) > 0 THEN NumSum(t.mat[1]) ELSE 0)
                  + (IF Len(t.mat) > 1 THEN 7 * NumSum(t.mat[Len(t.mat)]) ELSE 0)
-Sample(S, k, salt) ==
-  IF k = 0 \/ Cardinality(S) <= k THEN S
-  ELSE LET sq == SetToSeq(S)
-           stride == Len(sq) \div k
-           off == salt % stride
-       IN {sq[off + 1 + (j - 1) * stride] : j \in 1..k}
 
 Init == \E i \in InitHeaps : init = i /\ heap = i.heap /\ hist = <<>>
 
